@@ -97,6 +97,13 @@ CHECKS = {
         'zeros and one empty notification per request. Model tied to queue.py by exhaustive small trial vectors x all group sizes + random.',
    ref='DESIGN.md section 6 C03', note=COMMON_NOTE + ' np.random.randint choices and RandomState.shuffle blocks are oracles (membership / permutation assumed, checked by the harness); automatic decrement; no pause.',
    technique='Coq proof (per-policy invariants lifted through the request loop by induction) + vm_compute model outputs compared against queue.py'),
+ 'C12': dict(
+   text='Per stage (blocked, discard, downsample, decimate, rms, derivative, iirfilter, transform, mc_reference, auto_th, event_rate): theorems for EVERY stream and EVERY '
+        'chunking into non-empty chunks, plain and annotated, 1-D and 2-D: concatenated output = the whole-signal definition (e.g. decimate = filter whole signal then '
+        'every q-th sample, with the filter an abstract mapAccum) and consecutive annotated outputs are contiguous with the right rate, labels and metadata. '
+        'Model tied to pipeline.py by exhaustive chunkings of small N + random, bit-exact against one-shot scipy primitives.',
+   ref='DESIGN.md section 6 C12', note=COMMON_NOTE + ' lfilter/RMS/threshold kernels are abstract step functions (oracles); derivative is claimed for annotated input; rms contiguity assumes n divides the first s0.',
+   technique='Coq proof (carry-over state invariants by induction over chunk lists) + vm_compute correspondence against pipeline.py'),
 }
 
 PENDING = 'not yet built in this round (framework is being extended property by property; see DESIGN.md section 8)'
